@@ -2,9 +2,11 @@
 """C20 - the list-style builder yields one correct level definition per specification.
 
 translate:      harness/translate_attr.py (lean_easylist) -> Generated/EasyListRe.lean: the two regexes compiled inside
-                styleFromList, reduced to their character classes (shape checked)
+                styleFromList (format-character class; group 1 of the CSS-length regex as an `RE` term, its white-space and
+                unit classes, shape checked with Python's own regex parser) and whether the unit is lower-cased (AST)
 proof:          lean/OdfModel/Props/C20.lean (levels_count, levels_numbered, number_iff, prefix_suffix, num_format,
-                display_levels, bullet_first_char, indent_shape_partial, split_join, string_form, ...) about
+                display_levels, bullet_first_char, indent_shape_partial, cssSplit_number, cssSplit_unit, split_join,
+                string_form, ...) about
                 lean/OdfModel/EasyList.lean
 correspondence: children and attributes of the element returned by styleFromList / styleFromString  vs  drv_easylist
                 (Python's float()/*/str() of the spacing number is passed to the model as its FloatOracle: partial)
@@ -23,7 +25,8 @@ STYLENS = u'urn:oasis:names:tc:opendocument:xmlns:style:1.0'
 SHORT = {TEXTNS: 'text', STYLENS: 'style'}
 FORMATS = u'1IiAa'
 CSS_UNITS = ['em', 'ex', 'ch', 'rem', 'lh', 'vw', 'vh', 'vmin', 'vmax', 'cm', 'mm', 'q', 'in', 'pt', 'pc', 'px']
-CSS_NUMBERS = ['1', '0.6', '.5', '12.75', '5.0', '+2', '-1.5', '0', '10', '0.25', '3.125', '100', '0.1']
+CSS_NUMBERS = ['1', '0.6', '.5', '12.75', '5.0', '+2', '-1.5', '0', '10', '0.25', '3.125', '100', '0.1', '+.5', '-.25',
+               '1e1', '2.5E-1', '5e-1', '1E+2', '-2e0', '.5e1']
 PRE = [u'', u'(', u'Chapter ', u'§', u'第', u'\U0001F600', u'x.', u' ', u'<&"', u'[', u'é']
 SUF = [u'', u')', u'.', u' -', u'章', u'\U0001F600', u':', u'.)', u'1', u'a', u'I.']     # later format characters stay in the suffix
 BULLETS = [u'*', u'•', u'-', u'\U0001F600', u'→ x', u'é', u'bullet', u'>>', u' ', u'&<', u'\U0001D7D9', u'●○', u'+', u'o', u'ⅰ']
@@ -70,7 +73,7 @@ def float_oracle(css_re, spacing, n):
     return enc_str(str(num)), [enc_str(str(num * k)) for k in range(1, n + 1)]
 
 
-CSS_LENGTH = re.compile(r'([+-]?(?:[0-9]+\.?[0-9]*|\.[0-9]+)(?:[eE][+-]?[0-9]+)?)([A-Za-z]*)\Z')
+CSS_LENGTH = re.compile(r'([+-]?(?:[0-9]+\.?[0-9]*|\.[0-9]+)(?:[eE][+-]?[0-9]+)?)[ \t]*([A-Za-z]*)\Z')   # a blank before the unit is tolerated
 NUM_BACK = re.compile(r'([+-]?(?:[0-9]+\.?[0-9]*|\.[0-9]+)(?:[eE][+-]?[0-9]+)?|[+-]?inf|nan)(.*)\Z', re.S)
 
 
@@ -126,7 +129,7 @@ def check_style(st, specs, spacing, show_all):
                 bad.append(('indent', 'level %d: %s is %r' % (i + 1, key, pa.get(key))))
                 continue
             want = num * factor
-            if mm.group(2) != unit.lower() and mm.group(2) != unit:
+            if mm.group(2) != unit.lower():      # ODF lengths (the schema's `length`) spell their unit in lower case
                 bad.append(('indent-unit', 'level %d: %s is %r, the spacing unit is %r' % (i + 1, key, pa.get(key), unit)))
             if abs(got - want) > Decimal('1e-9') * max(Decimal(1), abs(want)):
                 bad.append(('indent', 'level %d: %s is %r, expected %s x %s%s' % (i + 1, key, pa.get(key), factor, num, unit)))
@@ -213,14 +216,7 @@ def run(chk, replay=None):
                         chk.fail('serialised:%s' % key.split(':')[1], case, 'serialised %s is %r, expected %r' % (key, a.get(ns + ' ' + key.split(':')[1]), e[key]))
 
     def spacing_class(spacing):
-        m = CSS_LENGTH.match(spacing)
-        if not m:
-            return 'not-a-css-length'
-        if 'e' in m.group(1):
-            return 'css-lowercase-exponent'
-        if m.group(2) != m.group(2).lower():
-            return 'css-uppercase-unit'
-        return 'css'
+        return 'css' if CSS_LENGTH.match(spacing) else 'not-a-css-length'
 
     if replay is not None:
         inp = replay['input']
@@ -239,8 +235,8 @@ def run(chk, replay=None):
     # ------------------------------------------------------------ 1 translate
     text, info = T.lean_easylist(common.REPO)
     chk.write_generated('EasyListRe', text)
-    chk.obligation('translator: numFormatPattern / cssLengthPattern have the shapes ([C]) and ([^U]+)\\s*([U]+)? the model is written for',
-                   info['ok'], repr(info))
+    chk.obligation('translator: numFormatPattern / cssLengthPattern have the shapes ([C]) and (G1)\\s*([U]+)? the model is written for',
+                   info['ok'], repr(dict((k, v) for k, v in info.items() if k != 'num_ast')))
     chk.assumptions.append('C20: Python float(), float multiplication and str(float) are a parameter of the model (FloatOracle); '
                            'the proportional-indentation clause is checked by correspondence and by the oracle only')
     # ------------------------------------------------------------ 2 prove
@@ -275,10 +271,21 @@ def run(chk, replay=None):
         n = rng.randint(1, 10)
         specs = gen_specs(rng, n)
         cases.append(('list', rng.choice(names), specs, specs, rng.choice(spacings), rng.random() < 0.5, True))
-    # CSS lengths the property also covers: upper-case units, exponents
-    for sp in [u'1CM', u'2Pt', u'3Q', u'0.5IN', u'1e1mm', u'2.5E-1cm', u'1E2px', u'5e-1em']:
+    # every spelling of a CSS length: units in upper / mixed case, exponents in both cases, signs, leading dot, a blank
+    # between number and unit
+    def respell(sp):
+        m = CSS_LENGTH.match(sp)
+        num, unit = m.group(1), m.group(2)
+        unit = rng.choice([unit, unit.upper(), unit.capitalize(), u''.join(rng.choice([c, c.upper()]) for c in unit)])
+        return num + rng.choice([u'', u'', u' ', u'\t']) + unit
+    for sp in [u'1CM', u'2Pt', u'3Q', u'0.5IN', u'1e1mm', u'2.5E-1cm', u'1E2px', u'5e-1em', u'+.5 In', u'-1.5E+1 PC', u'1 cm', u'.5e1Mm',
+               u'7', u'0', u'1e0']:
         specs = gen_specs(rng, 3)
         cases.append(('list', u'L', specs, specs, sp, True, True))
+    for _ in range(N // 3):
+        n = rng.randint(1, 10)
+        specs = gen_specs(rng, n)
+        cases.append(('list', u'L', specs, specs, respell(rng.choice(spacings)), rng.random() < 0.5, True))
     # string form
     for _ in range(N // 2):
         d = rng.choice(DELIMS)
@@ -322,13 +329,18 @@ def run(chk, replay=None):
         if res != ans:
             chk.corr_diff({'line': line}, res, ans, 'children and attributes of the returned list style')
     # the two regexes on their own
-    probes = [u'', u'cm', u'1', u'0.6cm', u' 1 cm', u'ab12cd34', u'1CM', u'é1ü', u'\n1\n', u'a', u'1a', u'--', u'1e1mm', u'12 pt x']
+    probes = [u'', u'cm', u'1', u'0.6cm', u' 1 cm', u'ab12cd34', u'1CM', u'é1ü', u'\n1\n', u'a', u'1a', u'--', u'1e1mm', u'12 pt x',
+              u'1e', u'1e+', u'1.e5x', u'..5', u'+-1', u'1.2.3cm', u'e5', u'-', u'.', u'1\u00a0cm', u'1\u2003Cm', u'1K', u'5\u212a', u'x-.5E-3Q', u'1 2 3',
+              u'1ecm', u'1E', u'0x10', u'١٢cm', u'１cm', u'1.cm', u'+.e1']
     probes += [sp for _, _, _, _, sp, _, _ in cases[:200]]
     rl, rx = [], []
     for s in sorted(set(probes)):
         m = css_re.search(s)
         rl.append('css ' + enc_str(s))
-        rx.append('ok none' if m is None else 'ok %s %s' % (enc_str(m.group(1)), enc_str(m.group(2) if m.lastindex == 2 else u'')))
+        unit = (m.group(2) if m.lastindex == 2 else u'') if m is not None else u''
+        if info.get('unit_expr') == 'm.group(2).lower()':
+            unit = unit.lower()
+        rx.append('ok none' if m is None else 'ok %s %s' % (enc_str(m.group(1)), enc_str(unit)))
     for _, _, payload, specs, _, _, _ in cases:
         for s in (specs or []):
             m = fmt_re.search(s)
@@ -358,6 +370,12 @@ def run(chk, replay=None):
                  sample={'specs': specs, 'spacing': spacing, 'showAll': sa, 'kind': kind})
         chk.count('levels_%d' % len(specs)); chk.count('numbered', numbered); chk.count('bullets', len(specs) - numbered)
         chk.count('spacing_' + spacing_class(spacing)); chk.count('oracle_' + kind)
+        mcss = CSS_LENGTH.match(spacing)
+        if re.search(r'[eE]', mcss.group(1)): chk.count('spacing_exponent')
+        if mcss.group(2) != mcss.group(2).lower(): chk.count('spacing_uppercase_unit')
+        if re.search(r'[ \t]', spacing): chk.count('spacing_blank_before_unit')
+        if mcss.group(1)[0] in '+-': chk.count('spacing_signed')
+        if mcss.group(1).lstrip('+-').startswith('.'): chk.count('spacing_leading_dot')
         oracle(kind, name, payload, specs, spacing, sa, case)
 
     def deep():
